@@ -163,3 +163,41 @@ Proof.
   - apply aht_sync_size in E2. rewrite E2. reflexivity.
   - apply Q in E2. subst a2. reflexivity.
 Qed.
+
+(* what sync() leaves in the two files *)
+Lemma aht_sync_content a a' :
+  wf (a_d a) -> wf (a_c a) -> pending (a_c a) = [] -> buf (a_c a) = [] -> 12 * a_latest a <= bufoff (a_c a) ->
+  aht_sync a = Ok a' ->
+  (a_cnt a = 0 /\ a' = a) \/
+  (a_cnt a <> 0 /\ durable (a_d a') = lview (a_d a) /\ pending (a_d a') = [] /\ buf (a_d a') = [] /\
+   bufoff (a_d a') = f_offset (a_d a) /\ lview (a_d a') = lview (a_d a) /\
+   12 * (a_latest a + a_cnt a) <= len (durable (a_c a')) /\
+   a_latest a' = a_latest a + a_cnt a /\ a_size a' = a_size a /\ a_cnt a' = 0).
+Proof.
+  intros Wd Wc Hp Hb H12. unfold aht_sync.
+  destruct (N.eqb_spec (a_cnt a) 0) as [E0|N0].
+  - intros E. left. split; [exact E0|congruence].
+  - destruct (f_setoffset (a_c a) (12 * a_latest a)) as [c1|] eqn:Es; [|discriminate].
+    intros E. right. split; [exact N0|].
+    assert (Q: forall x y, @Ok aht x = Ok y -> x = y) by (intros ? ? Q; congruence).
+    apply Q in E. subst a'. cbn [a_d a_c a_size a_latest a_cnt].
+    destruct (f_setoffset_spec _ _ _ Wc Es) as (S1 & S2 & S3 & S4 & S5 & _ & _ & _ & _ & S9).
+    specialize (S9 Hb).
+    set (ents := aht_entries (a_latest a) (N.to_nat (a_cnt a))) in *.
+    assert (Le: len ents = 12 * a_cnt a) by (unfold ents; rewrite len_aht_entries; lia).
+    set (c2 := f_append c1 ents).
+    assert (W2: wf c2) by (apply wf_append; auto).
+    destruct (f_sync_spec c2 W2) as (D1 & D2 & D3 & D4).
+    destruct (f_sync_spec (a_d a) Wd) as (E1 & E2 & E3 & E4).
+    assert (Lv1: lview c1 = durable (a_c a)).
+    { unfold lview. rewrite S9, wr_nil. unfold os_view. rewrite S5, S4, Hp. reflexivity. }
+    assert (O1: f_offset c1 = 12 * a_latest a) by exact S3.
+    assert (Ld: len (durable (f_sync c2)) = N.max (len (durable (a_c a))) (12 * (a_latest a + a_cnt a))).
+    { rewrite D1. unfold c2. rewrite lview_append by auto. rewrite Lv1, O1.
+      rewrite len_wr.
+      - rewrite Le. lia.
+      - unfold wf in S2. unfold f_offset in O1. rewrite S9, len_nil in O1.
+        rewrite os_view_nopending in S2 by congruence. rewrite S4 in S2. lia. }
+    split; [exact E1|]. split; [exact E2|]. split; [exact E3|]. split; [exact E4|].
+    split; [apply lview_sync; auto|]. split; [rewrite Ld; lia|]. repeat split; reflexivity.
+Qed.
